@@ -3,24 +3,25 @@
 # usage: seeded_regression.sh [parallelism]   -> writes /verif/seeded/REGRESSION.txt
 P=${1:-2}
 OUT=/verif/seeded/REGRESSION.txt
-TMP=$(mktemp -d /dev/shm/clsim-reg-XXXXXX)
+REGTMP=$(mktemp -d /dev/shm/clsim-reg-XXXXXX)
 one() {
   id=$1
+  [ -f /dev/shm/reg-keep/$id ] && return     # already done in an earlier (interrupted) pass
   d=/verif/seeded/$id
   prop=$(/venv/bin/python -c "import json;m=json.load(open('$d/meta.json'));print(m['breaks_property'] or '$id'.split('-')[0])")
   expect=$(/venv/bin/python -c "import json;m=json.load(open('$d/meta.json'));print(1 if m['breaks_property'] else 0)")
   W=$(mktemp -d /dev/shm/clsim-try-XXXXXX)
   git -C /repo archive HEAD | tar -x -C $W
-  (cd $W && git init -q . 2>/dev/null && git apply $d/patch.diff) || { echo "$id $prop PATCH-DOES-NOT-APPLY" > $TMP/$id; rm -rf $W; return; }
-  out=$(cd /verif && VERIF_STOP_ON_FIRST=1 VERIF_REPO=$W timeout 3000 /venv/bin/python run.py $prop --tier quick 2>&1)
+  (cd $W && git init -q . 2>/dev/null && (git apply $d/patch.diff 2>/dev/null || patch -s -p1 --fuzz=3 < $d/patch.diff)) || { echo "$id $prop PATCH-DOES-NOT-APPLY" > $REGTMP/$id; rm -rf $W; return; }
+  out=$(cd /verif && VERIF_STOP_ON_FIRST=1 VERIF_SHRINK_S=20 VERIF_REPO=$W timeout 3000 /venv/bin/python run.py $prop --tier quick 2>&1)
   rc=$?
   orc=$(echo "$out" | grep "oracle=" | head -1 | sed 's/ detail=.*//' | tr -s ' ')
-  echo "$id $prop expect_exit=$expect exit=$rc $orc" > $TMP/$id
+  echo "$id $prop expect_exit=$expect exit=$rc $orc" > $REGTMP/$id
   rm -rf $W
 }
-export -f one; export TMP
+export -f one; export REGTMP
 ls /verif/seeded | grep -v REGRESSION | grep "${2:-.}" | xargs -P $P -I{} bash -c 'one {}'
-cat $TMP/* /dev/shm/reg-keep/* 2>/dev/null | sort -u > $OUT
-rm -rf $TMP
+cat $REGTMP/* /dev/shm/reg-keep/* 2>/dev/null | grep "^C[01][0-9]-" | sort -u > $OUT
+rm -rf $REGTMP
 echo "ok=$(awk '{split($3,a,"=");split($4,b,"="); if (a[2]==b[2]) n++} END{print n+0}' $OUT) of $(wc -l < $OUT)" >> $OUT
 tail -1 $OUT
